@@ -529,3 +529,189 @@ Proof.
     + congruence.
     + intros x Hx. by apply Hold.
 Qed.
+
+(* ------------------------------------------------------------------ insert_registers: all flops *)
+Lemma same_attrs_refl c : same_attrs c c.
+Proof. intros x. destruct (c !! x); eauto. Qed.
+Lemma same_attrs_trans c1 c2 c3 : same_attrs c1 c2 → same_attrs c2 c3 → same_attrs c1 c3.
+Proof.
+  intros H12 H23 x. specialize (H12 x). specialize (H23 x). destruct (c1 !! x) as [i1|].
+  - destruct H12 as (i2 & E2 & ? & ?). rewrite E2 in H23. destruct H23 as (i3 & ? & ? & ?). exists i3. split_and!; congruence.
+  - destruct (c2 !! x) as [i2|]; [|done]. destruct H12 as [? ?]. destruct H23 as (i3 & -> & ? & ?). split; congruence.
+Qed.
+
+Lemma pin_port_inj inst p p' : pin inst p = pin inst p' → p = p'.
+Proof. unfold pin. intros H. apply (inj (String.append inst)) in H. by apply (inj (String.append ".")) in H. Qed.
+
+Definition ff_inst (n : string) : string := "ff_" ++ n.
+Lemma splice_inv C n i C' : splice C n i = Ok C' →
+  ∃ q, q ∉ dom (c_g C) ∧ ff_inst n ∉ dom (c_bbs C) ∧
+       pin (ff_inst n) "d" ∉ dom (c_g C) ∧ pin (ff_inst n) "clk" ∉ dom (c_g C) ∧ pin (ff_inst n) "q" ∉ dom (c_g C) ∧
+       q ≠ pin (ff_inst n) "d" ∧ q ≠ pin (ff_inst n) "clk" ∧ q ≠ pin (ff_inst n) "q" ∧
+       c_g C' = spliced (c_g C) n q (pin (ff_inst n) "d") (pin (ff_inst n) "clk") (pin (ff_inst n) "q") ∧
+       c_bbs C' = <[ff_inst n := ff_def]> (c_bbs C) ∧ c_name C' = c_name C.
+Proof.
+  unfold splice. cbv zeta. fold (ff_inst n). set (q := uid (c_g C) (n ++ reg_suffix ++ pretty i)).
+  top_if; [done|]. destruct (bool_decide (ff_inst n ∈ dom (c_bbs C))) eqn:Hb; [done|].
+  destruct (existsb _ _) eqn:He; [done|]. top_if; [done|]. intros [= <-]. simpl.
+  simpl in He. rewrite !orb_false_iff in He. destruct He as (E1 & E2 & E3 & _).
+  apply bool_decide_eq_false in E1, E2, E3, Hb.
+  rewrite dom_insert_L, dom_reroute in E1, E2, E3.
+  assert (Hq : q ∉ dom (c_g C)) by apply uid_fresh.
+  exists q. split_and!; try done; first [clear -E1; set_solver|clear -E2; set_solver|clear -E3; set_solver].
+Qed.
+
+Lemma foldl_rbind_fail {A B} (f : A → B → res A) (r : res A) l : (∀ a, r ≠ Ok a) →
+  ∀ a, foldl (λ acc p, rbind acc (λ x, f x p)) r l ≠ Ok a.
+Proof.
+  revert r. induction l as [|p l IH]; intros r Hr a; simpl; [apply Hr|].
+  apply IH. intros a'. destruct r; simpl; try done. by destruct (Hr a0).
+Qed.
+
+Definition newinst (C C' : Circuit) (inst : string) : Prop := inst ∈ dom (c_bbs C') ∧ inst ∉ dom (c_bbs C).
+Definition transp_new (C C' : Circuit) (v : val) : Prop :=
+  ∀ inst, newinst C C' inst → v (pin inst "q") = v (pin inst "d").
+
+Lemma splice_all_spec sel : ∀ C C', closed (c_g C) → clk_name ∈ dom (c_g C) → (∀ p, p ∈ sel → p.1 ∈ dom (c_g C)) →
+  splice_all C sel = Ok C' →
+  closed (c_g C') ∧ same_attrs (c_g C) (c_g C') ∧ dom (c_bbs C) ⊆ dom (c_bbs C') ∧
+  (∀ inst, newinst C C' inst → pin inst "q" ∈ dom (c_g C') ∧ pin inst "d" ∈ dom (c_g C')) ∧
+  (∀ v, consistent (c_g C') v → transp_new C C' v → consistent (c_g C) v) ∧
+  (∀ v, consistent (c_g C) v → ∃ v', consistent (c_g C') v' ∧ transp_new C C' v' ∧ agrees (dom (c_g C)) v' v).
+Proof.
+  induction sel as [|[n i] rest IH]; intros C C' Hcl Hclk Hsel; unfold splice_all; simpl.
+  - intros [= <-]. split_and!.
+    + done.
+    + apply same_attrs_refl.
+    + done.
+    + by intros inst [? ?].
+    + done.
+    + intros v Hv. exists v. split_and!; [done|by intros inst [? ?]|apply agrees_refl].
+  - destruct (splice C n i) as [C1| | |] eqn:Hs.
+    2-4: intros H; exfalso; by eapply (foldl_rbind_fail (λ x p, splice x p.1 p.2)) in H.
+    fold (splice_all C1 rest). intros Hrest.
+    apply splice_inv in Hs as (q & Hq & Hinst & Pd & Pc & Pq & N1 & N2 & N3 & Hg1 & Hb1 & _).
+    assert (Hn : n ∈ dom (c_g C)) by (apply (Hsel (n, i)); left).
+    destruct (spliced_spec (c_g C) n q (pin (ff_inst n) "d") (pin (ff_inst n) "clk") (pin (ff_inst n) "q") Hcl Hn Hclk Hq Pd Pc Pq N1 N2 N3)
+      as (Hcl1 & Hat1 & Dq & Dd & HA1 & HB1).
+    { intros E%pin_port_inj. discriminate. } { intros E%pin_port_inj. discriminate. } { intros E%pin_port_inj. discriminate. }
+    rewrite <- Hg1 in *.
+    pose proof (same_attrs_dom _ _ Hat1) as Hd1.
+    destruct (IH C1 C' Hcl1) as (Hcl' & Hat' & Hbb' & Hpins' & HA' & HB'); [by apply Hd1| |done|].
+    { intros p Hp. apply Hd1. apply Hsel. by right. }
+    pose proof (same_attrs_dom _ _ Hat') as Hd'.
+    assert (Hb1d : dom (c_bbs C1) = {[ff_inst n]} ∪ dom (c_bbs C)) by (rewrite Hb1; apply dom_insert_L).
+    assert (Hnew : ∀ x, newinst C C' x → x = ff_inst n ∨ newinst C1 C' x).
+    { intros x [Hx1 Hx2]. destruct (decide (x ∈ dom (c_bbs C1))) as [Hx|Hx]; [|right; by split].
+      left. rewrite Hb1d in Hx. clear -Hx Hx2. set_solver. }
+    assert (Hnew1 : ∀ x, newinst C1 C' x → newinst C C' x).
+    { intros x [Hx1 Hx2]. split; [done|]. rewrite Hb1d in Hx2. clear -Hx2. set_solver. }
+    assert (Hnewi : newinst C C' (ff_inst n)).
+    { split; [|done]. apply Hbb'. rewrite Hb1d. clear. set_solver. }
+    split_and!.
+    + done.
+    + by eapply same_attrs_trans.
+    + etrans; [|exact Hbb']. rewrite Hb1d. clear. set_solver.
+    + intros x [->|Hx]%Hnew; [split; by apply Hd'|by apply Hpins'].
+    + intros v Hv Ht. apply HA1; [|by apply Ht]. apply HA'; [done|]. intros x Hx. by apply Ht, Hnew1.
+    + intros v Hv. destruct (HB1 v Hv) as (v1 & Hv1 & Et & Ha1). destruct (HB' v1 Hv1) as (v' & Hv' & Ht' & Ha').
+      exists v'. split_and!; [done| |].
+      * intros x [->|Hx]%Hnew; [|by apply Ht']. rewrite !Ha' by done. done.
+      * intros x Hx. rewrite Ha' by (by apply Hd1). by apply Ha1.
+Qed.
+
+(* ------------------------------------------------------------------ insert_registers *)
+Lemma reg_selection_in g s order sel : reg_selection g s order = Ok sel → ∀ p, p ∈ sel → p.1 ∈ order.
+Proof.
+  unfold reg_selection. cbv zeta. top_if; [done|]. intros [= <-] p Hp.
+  apply elem_of_list_bind in Hp as (l & Hp & _). apply elem_of_list_fmap in Hp as (n & -> & Hn).
+  apply elem_of_list_filter in Hn as [_ Hn]. done.
+Qed.
+
+Definition with_clk (g : circuit) : circuit :=
+  if bool_decide (clk_name ∈ dom g) then g else <[clk_name := mk_node Input false ∅]> g.
+Lemma with_clk_spec g : closed g →
+  closed (with_clk g) ∧ clk_name ∈ dom (with_clk g) ∧ dom g ⊆ dom (with_clk g) ∧
+  outputs (with_clk g) = outputs g ∧ inputs g ⊆ inputs (with_clk g) ∧ inputs (with_clk g) ⊆ inputs g ∪ {[clk_name]} ∧
+  (∀ v, consistent (with_clk g) v ↔ consistent g v).
+Proof.
+  intros Hcl. unfold with_clk. case_bool_decide as Hc; [split_and!; try done; clear; set_solver|].
+  assert (Hl : g !! clk_name = None) by (by apply not_elem_of_dom).
+  split_and!.
+  - intros x j f Hx Hf. rewrite dom_insert. apply elem_of_union_r. destruct (decide (x = clk_name)) as [->|Hne].
+    + rewrite lookup_insert in Hx. simplify_eq. simpl in Hf. clear -Hf. set_solver.
+    + rewrite lookup_insert_ne in Hx by done. by eapply Hcl.
+  - rewrite dom_insert. clear. set_solver.
+  - rewrite dom_insert. clear. set_solver.
+  - apply set_eq. intros x. rewrite !elem_of_outputs. destruct (decide (x = clk_name)) as [->|Hne].
+    + rewrite lookup_insert, Hl. split; intros (i & ? & ?); simplify_eq; done.
+    + by rewrite lookup_insert_ne.
+  - intros x. rewrite !elem_of_inputs. intros (i & Hx & Ht). exists i. split; [|done].
+    rewrite lookup_insert_ne; [done|]. intros <-. congruence.
+  - intros x. rewrite elem_of_union, !elem_of_inputs, elem_of_singleton. intros (i & Hx & Ht).
+    destruct (decide (x = clk_name)) as [->|Hne]; [by right|]. left. rewrite lookup_insert_ne in Hx by done. eauto.
+  - intros v. rewrite consistent_insert_fresh by done. unfold node_ok. simpl. tauto.
+Qed.
+
+Theorem insert_registers_spec C s order C' : closed (c_g C) → bb_free C → insert_registers C s order = Ok C' →
+  closed (c_g C') ∧ dom (c_g C) ⊆ dom (c_g C') ∧
+  outputs (c_g C') = outputs (c_g C) ∧ inputs (c_g C) ⊆ inputs (c_g C') ∧ inputs (c_g C') ⊆ inputs (c_g C) ∪ {[clk_name]} ∧
+  (∀ v', consistent (c_g C') v' → transparent C' v' → consistent (c_g C) v') ∧
+  (∀ v, consistent (c_g C) v → ∃ v', consistent (c_g C') v' ∧ transparent C' v' ∧ agrees (dom (c_g C)) v' v).
+Proof.
+  intros Hcl Hbb. unfold insert_registers. cbv zeta. fold (with_clk (c_g C)).
+  destruct (bool_decide (NoDup order) && bool_decide (list_to_set order = dom (c_g C))) eqn:Hord; [|done]. cbn [negb].
+  top_if; [done|].
+  destruct (reg_selection (c_g C) s order) as [sel| | |] eqn:Hsel; try done. simpl. intros Hsp.
+  apply andb_true_iff in Hord as [_ Hord]. apply bool_decide_eq_true in Hord.
+  destruct (with_clk_spec (c_g C) Hcl) as (Hcl1 & Hclk & Hd1 & Ho1 & Hi1 & Hi1' & Hc1).
+  destruct (splice_all_spec sel (with_g C (with_clk (c_g C))) C') as (Hcl' & Hat & _ & _ & HA & HB); try done.
+  { simpl. intros p Hp. apply Hd1. rewrite <- Hord. apply elem_of_list_to_set. by eapply reg_selection_in. }
+  simpl in *. destruct (same_attrs_io _ _ Hat) as [Hi' Ho']. pose proof (same_attrs_dom _ _ Hat) as Hd'.
+  assert (Htr : ∀ v, transparent C' v ↔ transp_new (with_g C (with_clk (c_g C))) C' v).
+  { intros v. unfold transparent, transp_new, newinst. simpl. rewrite Hbb, dom_empty_L.
+    split; intros H inst; [intros [? _]; by apply H|intros ?; apply H; split; [done|set_solver]]. }
+  split_and!.
+  - done.
+  - by etrans.
+  - congruence.
+  - by rewrite Hi'.
+  - by rewrite Hi'.
+  - intros v Hv Ht. apply Hc1. apply HA; [done|]. by apply Htr.
+  - intros v Hv. apply Hc1 in Hv. destruct (HB v Hv) as (v' & Hv' & Ht' & Ha'). exists v'. split_and!; [done|by apply Htr|].
+    intros x Hx. apply Ha'. by apply Hd1.
+Qed.
+
+(* ------------------------------------------------------------------ the oracle's check implies the equivalence *)
+Lemma equiv_check_sound c c' : equiv_check c c' = true → equiv_on (dom c) c c'.
+Proof.
+  unfold equiv_check, equiv_check_gen. rewrite !andb_true_iff.
+  intros (((((((Hcl & Hcl') & Hac) & Hac') & Hf1) & Hf2) & Hdom) & Hall).
+  apply closedb_spec in Hcl, Hcl'. apply acyclicb_sound in Hac, Hac'.
+  apply bool_decide_eq_true in Hf1, Hf2.
+  assert (Hfree : free_nodes c' = free_nodes c) by (apply set_eq; intros x; clear -Hf1 Hf2; set_solver).
+  rewrite forallb_forall in Hdom, Hall.
+  assert (Hd : ∀ n, n ∈ dom c → n ∈ dom c').
+  { intros n Hn. specialize (Hdom n). rewrite bool_decide_eq_true in Hdom. apply Hdom, elem_of_list_In, elem_of_elements, Hn. }
+  assert (Hw : ∀ w, w ∈ all_vals (elements (free_nodes c')) →
+            consistent c (evalc c w) ∧ consistent c' (evalc c' w) ∧ ∀ n, n ∈ dom c → evalc c w n = evalc c' w n).
+  { intros w Hin. apply elem_of_list_In, Hall in Hin. rewrite !andb_true_iff in Hin. destruct Hin as [[H1 H2] H3].
+    split_and!; [by apply consistentb_spec|by apply consistentb_spec|].
+    intros n Hn. rewrite forallb_forall in H3. apply eqb_true_iff, H3, elem_of_list_In, elem_of_elements, Hn. }
+  split.
+  - intros v' Hv'. destruct (all_vals_complete (elements (free_nodes c')) v') as (w & Hin & Hwv).
+    destruct (Hw w Hin) as (Hc & Hc' & Heq). exists (evalc c w). split; [done|].
+    assert (agrees (dom c') v' (evalc c' w)) as Hu.
+    { apply evalc_unique; auto; [by apply consistentb_spec|]. intros n Hn. symmetry. apply Hwv. by apply elem_of_elements. }
+    intros n Hn. rewrite Heq by done. symmetry. apply Hu. by apply Hd.
+  - intros v Hv. destruct (all_vals_complete (elements (free_nodes c')) v) as (w & Hin & Hwv).
+    destruct (Hw w Hin) as (Hc & Hc' & Heq). exists (evalc c' w). split; [done|].
+    assert (agrees (dom c) v (evalc c w)) as Hu.
+    { apply evalc_unique; auto; [by apply consistentb_spec|]. intros n Hn. symmetry. apply Hwv. apply elem_of_elements. by rewrite Hfree. }
+    intros n Hn. rewrite <- Heq by done. symmetry. by apply Hu.
+Qed.
+
+(* helper for the non-vacuity examples: the run is accepted and its result satisfies a boolean test *)
+Definition ok_with {A} (P : A → bool) (r : res A) : bool := match r with Ok a => P a | _ => false end.
+Lemma ok_with_spec {A} (P : A → bool) r : ok_with P r = true → ∃ a, r = Ok a ∧ P a = true.
+Proof. destruct r; simpl; try done. eauto. Qed.
